@@ -59,7 +59,7 @@ func (c *zzCache) Get(ctx context.Context, _ client.ObjectKey, obj client.Object
 // locks a mutex it already holds.
 //
 //gosym:harness seqgo locks panics
-//gosym:cover remover-blocked-until-return remover-ran-after start-after-removal stopped
+//gosym:cover remover-blocked-until-return remover-ran-after start-after-removal stopped cached-read-after-removal
 func HarnessC13Tracker() {
 	under := &zzInformers{}
 	c := &zzCache{infs: under}
@@ -131,6 +131,15 @@ func HarnessC13Tracker() {
 		_ = tr.RemoveInformer(context.Background(), zzObj(gvk.Kind))
 	}
 	consistent()
+
+	// before the next start request something may read the kind through the
+	// cache - any reconciler's Get, the watch collector's List - which starts a
+	// fresh informer for it (one that does not have the engine's handlers)
+	if removing && zz.Bool("reader.getsAfterTheRemoval") {
+		zz.Cover("cached-read-after-removal")
+		_ = tr.Get(context.Background(), client.ObjectKey{Name: "x"}, zzObj(gvk.Kind))
+		consistent()
+	}
 
 	// the next start request re-establishes what was lost, never doubles it
 	zz.Cover("start-after-removal")
